@@ -100,6 +100,7 @@ pub struct World {
 pub fn make_builtins() -> BuiltinRegistry<E> {
     let mut b = BuiltinRegistry::<E>::with_modules(&quiver_core::builtins::core_modules());
     quiver_io::attach_file_builtins(&mut b);
+    quiver_io::attach_network_builtins(&mut b);
     b
 }
 
